@@ -184,17 +184,18 @@ def c2s(ctx, ntexts, nmut):
         t = splice(rng, corp)
         if not c03.lone_backslash(t):
             muts.append(t)
-    # texts whose long value / long note data has a character that must be written escaped on or next to a
-    # buffer-sized offset (0.5 ... 64 KiB) of the text or of the value itself
+    # texts (written out by hand, not by the library) whose long value / long note data has a character that must be
+    # written escaped on or next to a buffer-sized offset (4 ... 64 KiB) of the value itself
     bnd = []
-    brng = random.Random(ctx.seed * 29 + 4)
-    for fmt in ("sm", "ssc"):
-        for sf, info in cc.boundary_objects(fmt, brng, range(-2, 2) if ctx.quick else range(-8, 9)):
-            if info.get("value_offset") and (not ctx.quick or info["boundary"] in (4096, 8192, 16384)):
-                try:
-                    bnd.append(str(sf))
-                except Exception:  # noqa
-                    pass
+    esc = lambda v: v.replace("\\", "\\\\").replace("//", "\\//").replace(":", "\\:").replace(";", "\\;")      # noqa
+    for b in ((4096, 8192, 16384) if ctx.quick else cc.BOUNDARIES):
+        for d in (range(-3, 2) if ctx.quick else range(-8, 9)):
+            for seq in (("//",) if ctx.quick else ("//", ":", "\\", "//x//")):
+                body = "0" * (b + d) + seq + "1111\n2222"
+                bnd.append("#VERSION:0.83;\n#TITLE:t;\n#CREDIT:" + esc(body) + ";\n")
+                bnd.append("#TITLE:t;\n#CREDIT:" + esc(body) + ";\n")
+                bnd.append("#VERSION:0.83;\n#TITLE:t;\n#NOTEDATA:;\n#STEPSTYPE:dance-single;\n#NOTES:" + esc(body) + ";\n")
+                bnd.append("#TITLE:t;\n#NOTES:\n     dance-single:\n     :\n     Hard:\n     9:\n     0,0,0,0,0:\n" + esc(body) + "\n;\n")
     recs, meta = [], {}
     rid = 0
     rejected = {}
